@@ -28,13 +28,16 @@ SRC_K = "@m.memento_function\ndef k(x):\n    return x\n"
 
 
 def src_h(v):
-    return "def h(x):\n    if 'u' in globals():\n        u()\n    return g(x) + G + len(L) + len(T[1]) + %d\n" % v
+    return ("def h(x):\n    if 'u' in globals():\n        u()\n    if hasattr(CFG, 'limit'):\n        CFG.limit\n"
+            "    return g(x) + G + len(L) + len(T[1]) + %d\n" % v)
 
 
-def src_globals(gv, ln, gk="int", tn=0):
+def src_globals(gv, ln, gk="int", tn=0, cfg=None):
     g = {"int": "G = %d\n" % gv, "fn": "def G():\n    return %d\n" % gv, "obj": "G = object()\n"}[gk]
+    # CFG: an instance whose attribute `limit` is undefined at first and later defined on the class or on the instance
+    c = "class Cfg:\n%s\nCFG = Cfg()\n%s" % ("    limit = 10" if cfg == "class" else "    pass", "CFG.limit = 10\n" if cfg == "instance" else "")
     # T: a tuple (immutable, identity never changes) holding a list that is mutated in place
-    return g + "L = %r\nT = (0, %r)\n" % (list(range(ln)), list(range(tn)))
+    return g + c + "L = %r\nT = (0, %r)\n" % (list(range(ln)), list(range(tn)))
 
 
 def src_u():
@@ -46,7 +49,7 @@ TWIN = "vpc13twin"
 
 def twin_text(hv):
     """another module defining a plain helper h with the SAME text as the program's, but other module-level values behind the names"""
-    return "G = 100\nL = [9, 9, 9]\nT = (0, [9])\ndef g(x):\n    return x * 50\n" + src_h(hv)
+    return "G = 100\nL = [9, 9, 9]\nT = (0, [9])\nclass Cfg:\n    pass\nCFG = Cfg()\ndef g(x):\n    return x * 50\n" + src_h(hv)
 
 
 def ensure_twin(hv):
@@ -69,7 +72,7 @@ def ensure_twin(hv):
 
 
 def full_text(st):
-    t = src_globals(st["G"], st["L"], st.get("Gk", "int"), st.get("T", 0))
+    t = src_globals(st["G"], st["L"], st.get("Gk", "int"), st.get("T", 0), st.get("cfg"))
     if st["u"]:
         t += src_u()
     t += SRC_K + src_g(st["g"], st["gk"], st.get("gd", False))
@@ -82,7 +85,8 @@ def full_text(st):
 
 EVENTS = ["redef-f", "redef-g", "redef-h", "rebind-G", "mutate-L", "define-u", "g-to-plain", "g-to-memento",
           "clone-partial", "clone-context", "clone-force-local", "wrapper", "query-f", "query-g", "query-clone", "query-wrapper",
-          "redef-f-same", "rebind-G-to-function", "rebind-G-to-object", "undo-g", "mutate-T-inner", "g-declares-dependency", "rebind-h-to-twin-from-another-module"]
+          "redef-f-same", "rebind-G-to-function", "rebind-G-to-object", "undo-g", "mutate-T-inner", "g-declares-dependency", "rebind-h-to-twin-from-another-module",
+          "define-attribute-on-the-class", "define-attribute-on-the-instance"]
 
 
 def fresh_versions(st):
@@ -182,6 +186,13 @@ def _history(events, L, warm):
                 st["g"] -= 1
                 prog.exec(src_g(st["g"], st["gk"], st.get("gd", False)))
                 cover("definition-restored")
+            elif name in ("define-attribute-on-the-class", "define-attribute-on-the-instance"):
+                # the dotted symbol CFG.limit, undefined so far, becomes defined: as a class-level default or in the instance's own namespace
+                if st.get("cfg") or st.get("htwin"):
+                    continue
+                st["cfg"] = "class" if name.endswith("class") else "instance"
+                prog.exec("Cfg.limit = 10\n" if st["cfg"] == "class" else "CFG.limit = 10\n")
+                cover("dotted-symbol-defined-late")
             elif name == "mutate-L":
                 st["L"] += 1
                 prog.L.append(st["L"] - 1)
@@ -237,11 +248,11 @@ def _history(events, L, warm):
 
 @obligation(
     "C13.histories",
-    covers=("query", "query-clone", "query-wrapper", "query-after-event", "warm-cache", "definition-restored", "helper-replaced-by-identical-text-from-another-module"),
+    covers=("query", "query-clone", "query-wrapper", "query-after-event", "warm-cache", "definition-restored", "helper-replaced-by-identical-text-from-another-module", "dotted-symbol-defined-late"),
     split={"e0": list(range(len(EVENTS)))},
     bounds="all event sequences of length <= L over %d events (redefine f/g/h, restore g's previous edition, re-define g with the same body but a declared dependency, rebind / mutate tracked variables (incl. a list inside a tracked tuple), rebind the plain helper to a textually identical function of another module, rebind a tracked variable to a function / an "
            "arbitrary object, define an undefined "
-           "symbol, memento<->plain, three kinds of modifier clone, unregistered wrapper, version queries of f/g/clone/wrapper) on the "
+           "symbol, define an undefined attribute of a tracked instance on its class / on the instance, memento<->plain, three kinds of modifier clone, unregistered wrapper, version queries of f/g/clone/wrapper) on the "
            "program f -> h -> g with globals G, L; L = 3 quick, 4 thorough; version cache warm or cold at the start" % len(EVENTS),
     variables="choice: e0..e3 (event indices), warm bit",
     tier_args={"quick": {"L": 3}, "thorough": {"L": 4}},
